@@ -115,21 +115,22 @@ def unpack(t):
     return out.decode("latin-1")
 
 
-HASH_P = (1 << 61) - 1
+HASH_MASK = (1 << 60) - 1
 
 
 def text_obs(s):
-    """statement text as compared with the model: polynomial hash and length (see ParamsRun.of_text)"""
+    """statement text as compared with the model: 60-bit hash and length (see ParamsRun.of_text)"""
     h = 0
     for ch in s.encode("latin-1"):
-        h = (h * 257 + ch + 1) % HASH_P
+        h = (h * 1000003 + ch + 1) & HASH_MASK
     return [h, len(s)]
 
 
 def enc_pval(v):
+    """scalar -> int, list -> list of ints"""
     if isinstance(v, (list, tuple)):
-        return [1, [int(x) for x in v]]
-    return [0, int(v)]
+        return [int(x) for x in v]
+    return int(v)
 
 
 # ------------------------------------------------------------------ T1
@@ -553,7 +554,8 @@ def derive_one(R):
         params.append([pack(n), enc_pval(v)])
     vb = c._values_bindparam
     values = [[pack(str(n)) for n in vb]] if (c._insertmanyvalues and vb is not None) else []
-    return {"in": [toks, [pack(n) for n in order], kinds, values, params]}
+    pc = int(bool(c.literal_execute_params or c.post_compile_params))
+    return {"in": [toks, [pack(n) for n in order], kinds, values, params, pc]}
 
 
 def derive(path):
@@ -601,6 +603,13 @@ def _family_recipes(rng, n):
             "cols": [["b", 0]] if rng.random() < 0.5 else [["c", "x"]],
             "where": ["and", ["cmp", "ge", ["c", "x"], ["b", 0]], ["cmp", "le", ["c", "y"], ["b", 1]]],
             "order": None, "limit": rng.choice([None, 3]), "offset": None}
+        k = rng.random()
+        if k < 0.2:      # one of the two is an expanding bind
+            R["binds"][0].update(ex=1, v=[rng.randint(0, 5) for _ in range(rng.randint(0, 2))])
+            R["where"][1] = ["in", "x", 0]
+            R["cols"] = [["c", "x"]]
+        elif k < 0.4:    # one of the two is literal_execute
+            R["binds"][rng.randint(0, 1)]["le"] = 1
         out.append((R, "esc-collision"))
     for _ in range(n):
         # expanded names x_1, x_2 / x_1_1 ... against a bind carrying that name
@@ -630,6 +639,15 @@ def _family_recipes(rng, n):
             R["binds"][0]["v"] = [1, 2]
             R["where"] = ["in", "x", 0]
         out.append((R, "litexec-escaped"))
+    for _ in range(max(2, n // 3)):
+        # two BindParameter objects with one name, only one of them literal_execute: compiler.binds[name] is the
+        # one visited last, while each occurrence was rendered by its own flag
+        a, b = rng.choice([(0, 1), (1, 0)])
+        v = rng.randint(0, 9)
+        R = {"k": "select", "binds": [{"n": "p", "v": v, "u": 0, "le": a, "ex": 0}, {"n": "p", "v": v, "u": 0, "le": b, "ex": 0}],
+             "ov": {}, "cols": [["c", "y"]], "where": ["and", ["cmp", "ge", ["c", "x"], ["b", 0]], ["cmp", "le", ["c", "y"], ["b", 1]]],
+             "order": None, "limit": None, "offset": None}
+        out.append((R, "same-name-mixed-literal-execute"))
     for _ in range(max(1, n // 3)):
         R = {"k": "select", "binds": [{"n": "p", "v": [1, 2], "u": 0, "le": 0, "ex": 1}], "ov": {"p": rng.randint(1, 9)},
              "cols": [["c", "y"]], "where": ["in", "x", 0], "order": None, "limit": None, "offset": None, "misuse": 1}
@@ -642,7 +660,7 @@ SAFE_POOL = ["p", "q", "r", "a b", "pct%", "c:d", "(par)", "x[1]", "w.z w", "s",
 
 def gen_cases(rng, tier):
     recs = []
-    n = 1500 if tier == "thorough" else 420
+    n = 1500 if tier == "thorough" else 330
     for _ in range(n):
         recs.append((gen_recipe(rng), "random"))
     for _ in range(n // 2):
@@ -662,13 +680,13 @@ def search_cases(rng, tier):
 
 
 def _decode_in(c):
-    toks, order, kinds, values, params = c["in"]
+    toks, order, kinds, values, params, _pc = c["in"]
     return (
         [(k, unpack(s)) for k, s in toks],
         [unpack(s) for s in order],
         {unpack(s): k for s, k in kinds},
         ([unpack(s) for s in values[0]] if values else None),
-        {unpack(s): (v[1]) for s, v in params},
+        {unpack(s): v for s, v in params},
     )
 
 
@@ -697,7 +715,7 @@ def nontrivial(c):
 _ENG = {}
 _CAP = []
 _DB = None
-_TEXTS = {}  # statement text per style of the LAST impl() call (the observation carries only its hash)
+_TEXTS = {}  # (statement, parameters) per style of the LAST impl() call (the observation carries hashes)
 
 
 def impl_setup():
@@ -730,9 +748,22 @@ def impl_setup():
             _DB.execute("insert into u values (?,?,?)", (k, i, (i + j) % 9))
 
 
+def _hash_zs(zs):
+    h = 0
+    for z in zs:
+        h = (h * 1000003 + z + 1) & HASH_MASK
+    return h
+
+
 def _enc_params(p):
+    """positional: the values; dictionary: hash of the sorted items and size (see ParamsRun.of_fparams)"""
     if isinstance(p, dict):
-        return [1, [[pack(str(k)), enc_pval(v)] for k, v in sorted(p.items())]]
+        zs = []
+        for k, v in sorted((str(k).encode("latin-1"), v) for k, v in p.items()):
+            zs += list(k) + [-1]
+            zs += ([-2] + [int(x) for x in v] + [-3]) if isinstance(v, (list, tuple)) else [int(v)]
+            zs.append(-4)
+        return [1, _hash_zs(zs), len(p)]
     return [0, [enc_pval(v) for v in p]]
 
 
@@ -755,7 +786,7 @@ def impl(c):
                 obs.append([8, len(_CAP)])
                 continue
             text, p = _CAP[0]
-            _TEXTS[ps] = text
+            _TEXTS[ps] = (text, p)
             obs.append([0, text_obs(text), _enc_params(p)])
         except AssertionError:
             obs.append([1])
@@ -771,22 +802,21 @@ def impl(c):
 
 # ------------------------------------------------------------------ oracle
 def _val(v):
-    if isinstance(v, list) and len(v) == 2 and v[0] == 0 and isinstance(v[1], int):
-        return v[1]
+    if isinstance(v, int):
+        return v
     raise ValueError("parameter value %r is not a scalar" % (v,))
 
 
 def _inline(ps, text, params):
     """what a PEP-249 driver of this paramstyle substitutes; raises ValueError when it could not"""
-    kind, body = params
     if ps in ("qmark", "format", "numeric", "numeric_dollar"):
-        if kind != 0:
+        if isinstance(params, dict):
             raise ValueError("positional style with dict parameters")
-        vals = [_val(v) for v in body]
+        vals = [_val(v) for v in params]
     else:
-        if kind != 1:
+        if not isinstance(params, dict):
             raise ValueError("named style with sequence parameters")
-        d = {unpack(k): v for k, v in body}
+        d = dict(params)
     if ps == "qmark":
         parts = text.split("?")
         if len(parts) - 1 != len(vals):
@@ -862,11 +892,11 @@ def oracle(c, obs):
     for ps, o in zip(STYLES, obs):
         if o[0] != 0:
             return "%s: no statement reaches the driver (error code %s)" % (ps, o[0])
-        text = _TEXTS.get(ps)
-        if text is None or text_obs(text) != o[1]:
+        if ps not in _TEXTS or text_obs(_TEXTS[ps][0]) != o[1]:
             return None  # oracle called without the preceding impl() run of this case
+        text, params = _TEXTS[ps]
         try:
-            got = _inline(ps, text, o[2])
+            got = _inline(ps, text, params)
         except ValueError as e:
             return "%s: driver cannot bind: %s | %r" % (ps, e, text)
         if got != truth:
@@ -874,13 +904,12 @@ def oracle(c, obs):
         if ps in ("qmark", "numeric", "numeric_dollar", "named"):
             if want_rows is None:
                 want_rows = _rows(truth)
-            kind, body = o[2]
             if ps == "qmark":
-                p = tuple(_val(v) for v in body)
+                p = tuple(_val(v) for v in params)
             elif ps == "named":
-                p = {unpack(k): _val(v) for k, v in body}
+                p = {k: _val(v) for k, v in params.items()}
             else:
-                p = {str(i): _val(v) for i, v in enumerate(body, 1)}
+                p = {str(i): _val(v) for i, v in enumerate(params, 1)}
             try:
                 rows = _rows(text, p)
             except Exception as e:
@@ -907,6 +936,8 @@ def match_finding(c, what):
     for n in order:
         if n not in names:
             names.append(n)
+    if {n for k, n in toks if k == 1} & {n for k, n in toks if k == 2}:
+        return "C04-same-name-mixed-literal-execute"
     escd = [_esc(n) for n in names]
     if len(set(escd)) < len(escd):
         return "C04-escape-collision"
